@@ -9,6 +9,8 @@ package mcp
 import (
 	"encoding/json"
 	"fmt"
+	"math"
+	"strconv"
 
 	"trpc.group/trpc-go/trpc-mcp-go/internal/errors"
 )
@@ -140,6 +142,24 @@ func NewJSONRPCNotificationFromMap(method string, params map[string]interface{})
 	}
 
 	return newJSONRPCNotification(notification)
+}
+
+// requestIDKey renders a JSON-RPC id as a map key / comparison key that is stable across a JSON
+// round trip: an integer id sent as int64 comes back as float64, and "%v" prints float64 values
+// of 1e6 and above in exponent form ("1e+06"), which never matched the "%v" of the original integer.
+func requestIDKey(id interface{}) string {
+	switch v := id.(type) {
+	case float64:
+		if v == math.Trunc(v) && math.Abs(v) < 1<<63 {
+			return strconv.FormatInt(int64(v), 10)
+		}
+		return strconv.FormatFloat(v, 'g', -1, 64)
+	case float32:
+		return requestIDKey(float64(v))
+	case json.Number:
+		return v.String()
+	}
+	return fmt.Sprintf("%v", id)
 }
 
 // RequestId is the base request id struct for all MCP requests.
